@@ -231,16 +231,62 @@ def r1_algebra(program, rep):
               "entry: ~(OR of keys | OR of masks)",
               construct="get_common_xs", node=f)
     f = program.get(OC + ":_refine_downcheck")
-    ff = Flow(f)
-    ds = [d for d in ff.defs if d.var == "settable" and d.mode == "assign"]
-    ok = False
-    if len(ds) == 1:
-        t = _tt(ds[0].value, ["mask", "merge.mask"])
-        ok = all(bool(v) == (a and not b) for (a, b), v in t.items())
+    rep.guard("C04-R1", _settable, f, rep)
+    rep.floor("C04-R1", 9)
+
+
+def _settable(f, rep):
+    """The bits that can be set to stop the merge covering a lower entry:
+    masked in the covered entry and X in the merge (mask & ~merge.mask),
+    whatever temporaries spell it.  Read off the value terms of the AND
+    chains that test single bits."""
+    T = Terms(f)
+
+    def flat(t):
+        if t[0] == "binop" and t[1] == "BitAnd":
+            return flat(t[2]) + flat(t[3])
+        return [t]
+    found = []
+    for n in ast.walk(f):
+        if not (isinstance(n, ast.BinOp) and isinstance(n.op, ast.BitAnd)):
+            continue
+        par = getattr(n, "_parent", None)
+        if isinstance(par, ast.BinOp) and isinstance(par.op, ast.BitAnd):
+            continue
+        try:
+            t = plain(T.term(n, T.cfg.node_containing(n), _comp_env(T, n)))
+        except AnalysisError:
+            continue
+        ops = flat(t)
+        # a chain that involves the merge's mask
+        mm = [o for o in ops if any(
+            st[0] == "attr" and st[2] == "mask" and st[1][0] in ("mu",
+                                                                 "param")
+            for st in subterms(o))]
+        if not mm:
+            continue
+        rest = [o for o in ops if o not in mm and not (
+            o[0] == "binop" and o[1] == "LShift" and o[2] == ("const", 1))
+            and o[0] != "elem"]
+        found.append((n, mm, rest))
+    if not found:
+        raise AnalysisError("_refine_downcheck: the test of the bits that "
+                            "can be set was not found")
+    ok = True
+    for n, mm, rest in found:
+        good_mm = len(mm) == 1 and mm[0][0] == "unop" and \
+            mm[0][1] == "Invert" and mm[0][2][0] == "attr" and \
+            mm[0][2][2] == "mask"
+        good_m = len(rest) == 1 and rest[0][0] == "comp" and \
+            rest[0][2] == 1 and rest[0][1][0] == "elem" and any(
+                st[0] == "call" and st[1] == (
+                    "global", "_get_covered_keys_and_masks")
+                for st in subterms(rest[0][1]))
+        if not (good_mm and good_m):
+            ok = False
     rep.check(ok, "C04-R1", qual(f), "settable bits = masked in the covered "
               "entry and X in the merge", construct="settable truth table",
               node=f)
-    rep.floor("C04-R1", 9)
 
 
 def single_of(X):
@@ -1435,17 +1481,21 @@ def r5_contract(program, rep):
                 return True
             if lookup(x) is not None:
                 return lookup(x)[1] == CHIP
-            if x[0] in ("call", "callv") and x[1][0] == "local" and \
-                    depth < 2:
+            if x[0] in ("call", "callv") and x[1][0] in ("local", "mu") \
+                    and depth < 2:
+                hname = x[1][1] if x[1][0] == "local" else x[1][1].var
                 helper = [h for h in ast.walk(mts)
                           if isinstance(h, ast.FunctionDef) and
-                          h.name == x[1][1] and h is not mts]
-                if len(helper) == 1 and CHIP in x[2]:
+                          h.name == hname and h is not mts]
+                # (the name may be bound to one of several local
+                # definitions, e.g. one per form of the target: all count)
+                if helper and CHIP in x[2]:
                     outs = []
-                    for view in S.inners(helper[0]):
-                        for r in returns_of(helper[0]):
-                            if r.value is not None:
-                                outs.append(view.term(r.value))
+                    for h in helper:
+                        for view in S.inners(h):
+                            for r in returns_of(h):
+                                if r.value is not None:
+                                    outs.append(view.term(r.value))
                     return bool(outs) and all(tgt_ok(o, depth + 1)
                                               for o in outs)
             return False
